@@ -10,7 +10,8 @@ def facts : Facts :=
     allocAtEnd := true,
     declTokens := ["const", "func", "import", "type", "var"],
     wrapDefault := true,
-    mainAppended := true }
+    mainAppended := true,
+    iotaResetAtEnd := true }
 
 /-- the calls each entry point makes to the other functions of the pipeline, in source order -/
 def pipeline : CallGraph :=
@@ -30,7 +31,8 @@ def pipeline : CallGraph :=
     resizeFrame copies the old frame and zeroes only the new cells; gta assigns a new function symbol
     unconditionally and cfg points the symbol at the new node; every variable declaration allocates
     a new index at the end of the layout; the incremental parser prefixes declarations, wraps
-    everything else in main and returns the body block; CompileAST appends main to the init list -/
+    everything else in main and returns the body block; CompileAST appends main to the init list; the scope's iota is reset after
+    the last spec of a const declaration and incremented after any other, in cfg and in gta -/
 def shapes : List (String × String) :=
   [("resizeFrame.copy", "copy(data,interp.frame.data)"),
    ("resizeFrame.guard", "l-b<=0"),
@@ -39,6 +41,10 @@ def shapes : List (String × String) :=
    ("gta.defineStmt", "sc.sym[dest.ident]=&symbol{kind:varSym,global:true,index:sc.add(typ),typ:typ,rval:val,node:n}"),
    ("gta.valueSpec", "sc.sym[c.ident]=&symbol{index:sc.add(n.typ),kind:varSym,global:true,typ:n.typ,node:n}"),
    ("cfg.funcDecl", "ifsym:=sc.sym[funcName];!isMethod(n)&&sym!=nil&&!isGeneric(sym.typ){sym.index=-1sym.typ=n.typsym.kind=funcSymsym.node=n}"),
+   ("cfg.constIota", "ifchildPos(n)==len(n.anc.child)-1{sc.iota=0}else{sc.iota++}"),
+   ("cfg.iotaWrites", "sc.iota=0;sc.iota++"),
+   ("gta.constIota", "ifchildPos(n)==len(n.anc.child)-1{sc.iota=0}else{sc.iota++}"),
+   ("gta.iotaWrites", "sc.iota=0;sc.iota++"),
    ("scope.add", "index=len(s.types);s.types=append(s.types,t)"),
    ("parse.decl", "src=\"packagemain;\"+src"),
    ("parse.wrap", "inFunc=true;src=wrapInMain(src)"),
